@@ -330,6 +330,43 @@ def gen_C14(tier, rng):
             # not closed: still a legitimate adversarial triple (expected false, or true when A is rejected/accepted alike)
             R_enc = rng.choice(small)[0]
             yield (f"ed25519.verify {hx(m)} {hx(A_enc)} {hx(R_enc + le32(S))}", "small_order.random")
+    # the RIGHT point in a WRONG (non-canonical) encoding of R: verify must compare the 32 bytes of R with the canonical
+    # encoding of [S]B - [k]A, so these are all rejected although the decoded points are equal (seeded change C14-5:
+    # projective comparison of the decoded R).  Alternative encodings exist for the identity (sign bit set; y = p + 1),
+    # for (0, -1) (sign bit set) and for the two points with y = 0 (y-field = p); S = 0 and a small-order A close the
+    # equation without a secret.
+    alt = []
+    for enc, pt in small:
+        y = int.from_bytes(enc, "little") & (2**255 - 1)
+        sign = int.from_bytes(enc, "little") >> 255
+        cands = []
+        if y < 19:
+            cands.append((y + P) | (sign << 255))
+        if pt[0] % P == 0:
+            cands.append(y | ((1 - sign) << 255))
+            if y < 19:
+                cands.append((y + P) | ((1 - sign) << 255))
+        for c in cands:
+            b = c.to_bytes(32, "little")
+            if b != enc and pt_dec(b) is not None and pt_enc(pt_dec(b)) == enc:
+                alt.append((b, enc))
+    closed = 0
+    for _ in range(300 if quick else 4000):
+        if closed >= (24 if quick else 300):
+            break
+        A_enc, A_pt = rng.choice(small)
+        m = rng.rbytes(rng.randrange(0, 40))
+        R_alt, R_can = rng.choice(alt)
+        k = int.from_bytes(H(R_alt + A_enc + m), "little") % L
+        if pt_enc(pt_neg(pt_mul(k, A_pt))) == R_can:
+            closed += 1
+            yield (f"ed25519.verify {hx(m)} {hx(A_enc)} {hx(R_alt + le32(0))}", "R.noncanonical.right_point")
+    # the same with the identity as A in each of its encodings (then [k]A = O for every k) and any S: R = enc([S]B) is
+    # canonical, so only S = 0 gives a point with a second encoding
+    for A_enc in (le32(1), le32(1 | (1 << 255)), le32(P + 1)):
+        for R_alt, R_can in alt:
+            if R_can == le32(1):
+                yield (f"ed25519.verify {hx(rng.rbytes(5))} {hx(A_enc)} {hx(R_alt + le32(0))}", "R.noncanonical.identity")
     # mixed-order forgeries: A = honest + small-order component is a different key; with S from the honest key the
     # equation fails in general; keep as adversarial samples
     for _ in range(8 if quick else 100):
